@@ -9,6 +9,9 @@ CHECKS = {
     "C15": [("R-GLOBAL", "r_global", "run_global", ("quick", "thorough"))],
     "C04": [("R-ALLOC.who", "r_global", "run_alloc_who", ("quick", "thorough")),
             ("R-TMP", "r_tmp", "run", ("quick", "thorough"))],
+    "C06": [("R-TABLES.c06", "r_tables", "run_c06", ("quick", "thorough"))],
+    "C16": [("R-TABLES.c16", "r_tables", "run_c16", ("quick", "thorough"))],
+    "C10": [("R-TABLES.logic", "r_tables", "run_logic", ("quick", "thorough"))],
     "C02": [("R-DIVZERO", "r_divzero", "run", ("quick", "thorough"))],
     "C17": [("R-STREAM", "r_stream", "run", ("quick", "thorough")),
             ("R-TMP.io", "r_tmp", "run_io", ("quick", "thorough"))],
@@ -27,6 +30,9 @@ RULES = {
     "R-TMP.modes": ("r_tmp", "run_modes"),
     "R-STREAM": ("r_stream", "run"),
     "R-DIVZERO": ("r_divzero", "run"),
+    "R-TABLES.c06": ("r_tables", "run_c06"),
+    "R-TABLES.c16": ("r_tables", "run_c16"),
+    "R-TABLES.logic": ("r_tables", "run_logic"),
 }
 
 EXPLANATION = {
@@ -39,6 +45,19 @@ EXPLANATION = {
            "(R-PURE), every compile-time-constant assertion holds under each shipped tuning table (R-CONSTASSERT), and no "
            "TMP block is used after TMP_FREE or escapes (the alloca / malloc-reentrant / debug temporaries cannot differ). "
            "Kernel ABI and dispatch-contract rules are added as they are built.  Functional equivalence of kernels is not decided.",
+    "C06": "Exhaustive static check of the constant data radix conversion rests on: all 255 entries of __gmpn_bases recomputed "
+           "exactly (digits per limb, big_base, its inverse, log2/log b), the 480-byte digit-value table against the three digit "
+           "alphabets of every output function (writer/reader agreement for every base and digit), and a three-valued analysis "
+           "of MPN_SIZEINBASE's estimate per base (proved safe / refuted with a witness bit count / undecided).  The conversion "
+           "algorithms themselves are not decided.",
+    "C16": "Exhaustive static check of the combinatorial tables and of the limit macros every reader unit defines for them: odd "
+           "factorials (incl. the mod 2^64 extension), double factorials, 2-adic counts, limb roots, n!, primorials, inverse and "
+           "central-binomial tables, Fibonacci table and limits, prime lists, quadratic-residue filters, byte inverses, FFT "
+           "bit-reversal tables - each entry recomputed with exact integer arithmetic.  Algorithms (sieve, Miller-Rabin, "
+           "bin_uiui case split) are not decided.",
+    "C10": "Exhaustive (4 rows x 9 kernels) truth tables of the per-limb operator of the mpn logical functions, read off the "
+           "typed AST of the kernels / MPN_LOGOPS_N_INLINE uses.  Narrow: the mpz-level two's-complement handling, scans and "
+           "popcounts are value properties and are not decided.",
     "C02": "Static analysis of the division entry points: every public division / modulo / powm function of the manual tests its "
            "divisor for zero and reaches the intentional __gmp_divide_by_zero on the zero edge before any limb-level division "
            "routine, C division or inline-asm divide sees the divisor (guard block dominates every dangerous operation), or hands "
@@ -64,6 +83,11 @@ ASSUMPTIONS = {
                "input-only (const-pointer) parameters are not read for their _mp_alloc field (fake mpz_t idiom)"],
     "R-CONSTASSERT": ["Clang's constant evaluator (Expr::EvaluateAsInt); blocks the CFG prunes as unreachable are skipped; literal ASSERT (0) markers are skipped"],
     "R-TMP.modes": ["same analysis as R-TMP restricted to the violation kinds whose behaviour differs between alloca, malloc-reentrant and debug temporaries"],
+    "R-TABLES.c06": ["tables are read from the linked LLVM IR (clang's constant evaluation of the initialisers); definitions recomputed "
+                     "with Python integers / 60-digit decimals", "MPN_SIZEINBASE witnesses emulate the macro's IEEE double multiply and "
+                     "truncation; two of them were replayed against the real library (findings/sizeinbase)"],
+    "R-TABLES.c16": ["tables are read from the linked LLVM IR; limit macros from `clang -E -dM` of each unit that defines them"],
+    "R-TABLES.logic": ["bitwise operators are bit-parallel, so the 1-bit truth table determines the per-limb function"],
     "R-DIVZERO": ["the division family and each function's divisor parameter are taken from the manual (spec/division_api.tsv)",
                   "dangerous operations = calls to the mpn division / inversion / REDC kernels, C '/' and '%' and inline asm whose operand derives from the divisor"],
     "R-STREAM": ["libc failure conventions: fwrite/fread return the item count, fputc/putc/fputs return EOF, fprintf a negative value; "
